@@ -242,7 +242,7 @@ CLAIMS = {
                  "for the combinations of case/alias/bracket/optional-token renderings of whole generated queries, equality of the parsed "
                  "Query (in-process) and of the rows is decided by the metamorphic check. At the lexer: quoted_literal_is_one_token — whatever stands "
                  "between single or double quotes (blanks, commas, brackets, operators, keywords, the other quote) becomes the text of one String "
-                 "token in every lexer context, by induction over the text against the well-founded scanning loop; the other context flags of "
+                 "token in every lexer context, by induction over the text against the well-founded scanning loop; expression_test_case_insensitive — the lexer's looks_like_expression test on a pending token (SIZE*2 vs size*2) does not depend on letter case; the other context flags of "
                  "the lexer are covered by the model correspondence only. D63 fixed (root option `regexp`/any-case `RX`)."),
         "ref": "DESIGN.md §4 C11",
     },
